@@ -64,7 +64,7 @@ func (e *Engine) addrWrites(fr *Frame, addr ssa.Value, ws *writeSet) {
 			// pointer value: heap field components under path
 			for _, l := range leaves(structT) {
 				if l.path == path || strings.HasPrefix(l.path, path+".") || strings.HasPrefix(l.path, path+"#") {
-					ws.keys[fieldKey(structT, l.path)] = true
+					ws.keys[regKey(fieldKey(structT, l.path), l, 1)] = true
 				}
 			}
 			return
@@ -72,12 +72,12 @@ func (e *Engine) addrWrites(fr *Frame, addr ssa.Value, ws *writeSet) {
 			switch xt := x.X.Type().Underlying().(type) {
 			case *types.Slice:
 				for _, l := range leaves(xt.Elem()) {
-					ws.keys[elemKey(xt.Elem(), l.path)] = true
+					ws.keys[regKey(elemKey(xt.Elem(), l.path), l, 2)] = true
 				}
 			case *types.Pointer:
 				if at, ok := xt.Elem().Underlying().(*types.Array); ok {
 					for _, l := range leaves(at.Elem()) {
-						ws.keys[elemKey(at.Elem(), l.path)] = true
+						ws.keys[regKey(elemKey(at.Elem(), l.path), l, 2)] = true
 					}
 				}
 			}
@@ -135,18 +135,18 @@ func (e *Engine) typeWrites(pt types.Type, ws *writeSet) {
 	}
 	if kindOf(el) == kStruct {
 		for _, l := range leaves(el) {
-			ws.keys[fieldKey(el, l.path)] = true
+			ws.keys[regKey(fieldKey(el, l.path), l, 1)] = true
 		}
 		return
 	}
 	if at, ok := el.Underlying().(*types.Array); ok && kindOf(el) != kSeq {
 		for _, l := range leaves(at.Elem()) {
-			ws.keys[elemKey(at.Elem(), l.path)] = true
+			ws.keys[regKey(elemKey(at.Elem(), l.path), l, 2)] = true
 		}
 		return
 	}
 	for _, l := range leaves(el) {
-		ws.keys[boxKey(el, l.path)] = true
+		ws.keys[regKey(boxKey(el, l.path), l, 1)] = true
 	}
 }
 
@@ -160,7 +160,7 @@ func (e *Engine) objectWrites(t types.Type, ws *writeSet) {
 			return
 		}
 		for _, l := range leaves(u.Elem()) {
-			ws.keys[elemKey(u.Elem(), l.path)] = true
+			ws.keys[regKey(elemKey(u.Elem(), l.path), l, 2)] = true
 		}
 	case *types.Map:
 		ws.keys[mapDomKey(u)] = true
@@ -269,7 +269,7 @@ func (e *Engine) contractWrites(c *Contract, ws *writeSet, sig *types.Signature,
 				case "obj", "elems", "map", "deref":
 					e.objectWrites(t, ws)
 					continue
-				case "dyn":
+				case "dyn", "dynfresh":
 					ws.all = true
 					ws.why = append(ws.why, "dyn() item of "+c.Key)
 					continue
@@ -287,7 +287,7 @@ func (e *Engine) contractWrites(c *Contract, ws *writeSet, sig *types.Signature,
 					hit := false
 					for _, l := range leaves(pt.Elem()) {
 						if l.path == path || strings.HasPrefix(l.path, path+".") || strings.HasPrefix(l.path, path+"#") {
-							ws.keys[fieldKey(pt.Elem(), l.path)] = true
+							ws.keys[regKey(fieldKey(pt.Elem(), l.path), l, 1)] = true
 							hit = true
 						}
 					}
@@ -320,7 +320,7 @@ func (e *Engine) contractWrites(c *Contract, ws *writeSet, sig *types.Signature,
 					path := "." + strings.Join(parts[2:], ".")
 					for _, l := range leaves(T) {
 						if l.path == path || strings.HasPrefix(l.path, path+".") || strings.HasPrefix(l.path, path+"#") {
-							ws.keys[fieldKey(T, l.path)] = true
+							ws.keys[regKey(fieldKey(T, l.path), l, 1)] = true
 						}
 					}
 					continue
@@ -589,4 +589,18 @@ func (e *Engine) frameGoal(st *State, k string) *Term {
 		return Forall([]*Term{r}, Implies(cond, Eq(Select(cur, r), Select(entry, r))), Select(cur, r))
 	}
 	return Forall([]*Term{r}, Implies(cond, Eq(Select(cur, r), Select(entry, r))))
+}
+
+// regKey registers the sort of a heap component named by a write set before any path has touched it
+// (so that the automatic frame invariant of a loop does not depend on the order functions are verified in).
+func regKey(key string, l leaf, depth int) string {
+	if _, ok := heapSorts[key]; !ok {
+		srt := arrSort(SInt, l.sort)
+		if depth == 2 {
+			srt = arrSort(SInt, srt)
+		}
+		heapSorts[key] = srt
+		noteLeaf(key, l)
+	}
+	return key
 }
